@@ -167,6 +167,7 @@ def _add(pid, fn, labels=None):
 for _p in ("C13", "C17"):
     _add(_p, "(*marshal.NanoTime).UnmarshalJSON")
 _add("C13", "(marshal.NanoTime).MarshalJSON")
+_add("C13", "payload.NewDecoder$1")
 _add("C15", "(*main.serverApp).init")
 _add("C02", S+"buildCache", ["log-refill-never-overwrites"])
 _add("C04", S+"buildCache", ["log-refill-never-overwrites"])
